@@ -77,6 +77,10 @@ def cases(tier, seed):
                      [(34, "cyclic_shift"), (36, "generic"), (17, "cyclic_shift"), (20, "generic"), (66, "cyclic_shift"), (40, "generic"), (33, "generic"), (48, "cyclic_shift")]):
         out.append({"kind": "large", "cls": "large", "cls2": c2, "n": n_, "idx": idx, "seed": seed})
         idx += 1
+    for n_ in (2, 5) if tier == "quick" else (2, 3, 5, 8):
+        for c_ in (1.0, 1e-6, 1e6):
+            out.append({"kind": "alias_rhs", "cls": "alias_rhs", "n": n_, "c": c_, "idx": idx, "seed": seed})
+            idx += 1
     for n in (1, 2, 4) if tier == "quick" else (1, 2, 3, 4, 6, 8):
         out.append({"kind": "lu_failpoint", "cls": "lu_failpoint", "n": n, "idx": idx, "seed": seed})
         idx += 1
@@ -375,6 +379,41 @@ def _stagnation(spec, ctx, R):
         judge_solve(ctx, A, b, x, inf, tol=tol, cap=None, prec=prec, kappa=kappa, site=site, tags=tags)
 
 
+def _alias_rhs(spec, ctx, R):
+    """Argument relations: the right-hand side is a VIEW of the matrix (a column, a transposed row), both handed over as the caller's
+    own objects; judged against independent copies taken before the call."""
+    n, c = spec["n"], spec["c"]
+    rng = gen.rng_for(spec["seed"], "c04alias", spec["idx"])
+    G, _ = make_matrix(rng, "generic", n)
+    for form in ("column_view", "row_view_transposed", "same_object_twice_solved"):
+        A = G * c
+        j = int(rng.integers(0, n))
+        b = A[:, j:j + 1] if form != "row_view_transposed" else A[j:j + 1, :].T
+        A_ref, b_ref = np.array(A, copy=True), np.array(b, copy=True)
+        kappa = embed.cond(A_ref)
+        floor = 1e3 * n * EPS * kappa
+        for prec in (None, "left_lu"):
+            site = f"solve[{prec or 'none'}]:rhs_is_{form}"
+            tags = ["generic", f"scale={c:g}", "rhs:view_of_A"]
+            try:
+                S = R.solver.QGMRESSolver(tol=1e-10, preconditioner=prec, verbose=False)
+                with np.errstate(all="ignore"):
+                    x, inf = S.solve(A, b)
+                    if form == "same_object_twice_solved":
+                        x, inf = S.solve(A, b)
+            except Exception as e:
+                ctx.check("M5_solves_within_n_cycles", False, site=site, tags=tags, detail={"exception": repr(e)[:200]})
+                continue
+            ctx.check("input_unchanged", bool(np.array_equal(refq.fa(A), refq.fa(A_ref)) and np.array_equal(refq.fa(b), refq.fa(b_ref))), site=site, tags=tags)
+            r = judge_solve(ctx, A_ref, b_ref, x, inf, tol=1e-10, cap=None, prec=prec, kappa=kappa, site=site, tags=tags)
+            if r is not None:
+                cfac = (1.0 + 1e-6) * (max(1.0, kappa) if prec == "left_lu" else 1.0)
+                ctx.check("M5_solves_within_n_cycles", r, max(1e-10 * cfac, floor) + floor, site=site, tags=tags)
+            A = np.array(A_ref, copy=True)
+            b = A[:, j:j + 1] if form != "row_view_transposed" else A[j:j + 1, :].T
+    ctx.hit("forms:rhs_view_of_matrix")
+
+
 def _large(spec, ctx, R):
     """Systems larger than any plausible fixed workspace (32, 64): the Krylov space has to grow to the full dimension.  The weighted
     cyclic shift with right-hand side e_1 is the classical worst case - no residual reduction at all before cycle n."""
@@ -507,7 +546,7 @@ def _lu_failpoint(spec, ctx, R):
 
 
 def run_case(spec, ctx, R):
-    {"system": _system, "scaling": _scaling, "stagnation": _stagnation, "large": _large, "lu_failpoint": _lu_failpoint}[spec["kind"]](spec, ctx, R)
+    {"system": _system, "scaling": _scaling, "stagnation": _stagnation, "large": _large, "alias_rhs": _alias_rhs, "lu_failpoint": _lu_failpoint}[spec["kind"]](spec, ctx, R)
 
 
 # --------------------------------------------------------------------------------------
